@@ -19,7 +19,7 @@ fn frames_for(kind: &str, victim: &str, seen: Option<(u64, u64)>) -> Option<Vec<
         "reset_final_shrink" => { let (id, end) = seen?; if end == 0 { return None; } frame::ResetStream { stream_id: vi(id), application_error_code: vi(1), final_size: vi(0) }.encode_to_vec() }
         "data_after_fin" => { let (id, end) = seen?; let mut v = stream(id, end, &[], true); v.extend(stream(id, end + 10, &[9], false)); v }
         "fin_below_received" => { let (id, end) = seen?; if end < 2 { return None; } stream(id, 0, &[], true) }
-        "reset_beyond_sd" => { let (id, _) = seen?; frame::ResetStream { stream_id: vi(id), application_error_code: vi(1), final_size: vi(1 << 31) }.encode_to_vec() }
+        "reset_beyond_sd" => { let (id, _) = seen?; frame::ResetStream { stream_id: vi(id), application_error_code: vi(1), final_size: vi(1 << 30) }.encode_to_vec() }
         "local_unopened" => stream(own_bidi + 4 * 100_000, 0, &[1], false),
         "send_only_stream" => stream(own_uni, 0, &[1, 2], false),
         "max_stream_data_recv_only" => frame::MaxStreamData { stream_id: vi(peer_uni), maximum_stream_data: vi(1 << 20) }.encode_to_vec(),
